@@ -642,4 +642,750 @@ Section Sim.
         destruct (H b Hin) as (P1 & _). rewrite E in P1. apply Hn0.
         unfold ptr_at in *. rewrite Hp in P1. inv P1. apply in_map. auto.
   Qed.
+
+  Lemma bind_head : forall k p i a e ce X BB sc, Sep X sc -> Binv BB sc ->
+    (exists er, forall ps args,
+        bind_params false mt k i (p :: ps) (a :: args) e ce sc = Er er /\
+        bind_params true mt k i (p :: ps) (a :: args) e ce (patch BB sc) = Er er)
+    \/ (exists ad st3 Bhd,
+          (forall ps args,
+             bind_params false mt k i (p :: ps) (a :: args) e ce sc =
+               bind_params false mt k (S i) ps args e ((pname p, ad) :: ce) st3 /\
+             bind_params true mt k i (p :: ps) (a :: args) e ce (patch BB sc) =
+               bind_params true mt k (S i) ps args e ((pname p, ad) :: ce) (patch (Bhd ++ BB) st3)) /\
+          Sep X st3 /\ Binv (Bhd ++ BB) st3 /\ length (vars sc) <= length (vars st3) /\
+          (if pref p then (exists x, a = ARef x /\ lookup e x = Some ad) /\ st3 = sc /\ Bhd = []
+           else ad = length (vars sc) /\ length (vars st3) = S ad /\
+                (Bhd = [] \/ exists b', Bhd = [b'] /\ b_pa b' = ad /\ is_const mt k i = true /\
+                    (In (b_al b') (map b_al BB) \/
+                     exists x, a = AVal (EVar x) /\ lookup e x = Some (b_al b') /\ ~ In (b_al b') (map b_pa BB))))).
+  Proof.
+    intros k p i a e ce X BB sc HS HB.
+    destruct (pref p) eqn:Ep; destruct a as [ex|x].
+    - left. exists EStuck. intros. cbn. rewrite Ep. auto.
+    - destruct (lookup e x) as [ad|] eqn:El.
+      + right. exists ad, sc, []. split; [intros; cbn; rewrite Ep, El; auto|].
+        split; [auto|split; [auto|split; [lia|]]]. split; eauto.
+      + left. exists EStuck. intros. cbn. rewrite Ep, El. auto.
+    - (* value parameter *)
+      pose proof (eval_patch X BB e ex sc HS HB) as Hev.
+      destruct (eval e ex sc) as [[v st1]|er] eqn:E1.
+      2:{ left. exists er. intros. cbn [bind_params]. rewrite Ep, Hev, E1. auto. }
+      cbn [lift1] in Hev.
+      destruct (eval_spec _ _ _ _ _ _ E1 HS) as (S1 & X1 & R1). pose proof (Binv_ext _ _ _ _ HS HB X1) as B1.
+      pose proof X1 as (Ev & _).
+      destruct v as [z|l tmp].
+      + destruct (new_var (VInt z) st1) as [ad st2] eqn:En.
+        right. exists ad, st2, []. pose proof (new_var_spec _ _ _ _ En) as (Ead & N2 & N3 & N4 & N5).
+        split; [intros; cbn [bind_params]; rewrite Ep, Hev, E1; cbn [bind]; rewrite En, (new_var_patch _ _ _ _ _ En); auto|].
+        split; [eapply Sep_new_var_int; eauto|split; [eapply Binv_new_var; eauto|split; [rewrite N2, app_length, Ev; lia|]]].
+        split; [congruence|split; [rewrite N2, app_length, Ev, Ead, Ev; cbn; lia|auto]].
+      + destruct (is_const mt k i && negb tmp) eqn:Ec.
+        * (* elided *)
+          apply andb_true_iff in Ec. destruct Ec as [Ec1 Ec2]. apply negb_true_iff in Ec2. subst tmp.
+          destruct (eval_nontmp _ _ _ _ _ E1) as (x & ax & -> & Lx & Px & ->).
+          destruct (sep_live _ _ HS _ _ Px) as [c Hc].
+          destruct (alloc (Live c) sc) as [lc sc2] eqn:Ea.
+          destruct (new_var (VPtr lc) sc2) as [ad sc3] eqn:En.
+          destruct (Binv_push _ _ _ _ _ _ _ _ _ _ HS HB Px Hc Ea En) as [BP1 BP2].
+          set (b' := mkB ad (fst (lender BB l ax)) lc (snd (lender BB l ax))) in *.
+          pose proof (Sep_alloc _ _ _ _ _ HS Ea) as [HS2 HU].
+          pose proof (alloc_spec _ _ _ _ Ea) as (Elc & Hh & Hv & Ht & Ho).
+          pose proof (new_var_spec _ _ _ _ En) as (Ead & N2 & N3 & N4 & N5).
+          right. exists ad, sc3, [b'].
+          split.
+          { intros. cbn [bind_params]. rewrite Ep, Hev, E1. cbn [bind andb]. rewrite Ec1. cbn [negb andb claim_or_copy].
+            unfold copy_of. rewrite (read_live _ _ _ Hc). cbn [bind]. rewrite Ea. cbn [bind]. rewrite En.
+            rewrite (target_lender X BB sc l ax) by auto.
+            rewrite (alloc_alias_patch BB sc c (snd (lender BB l ax)) lc sc2 ad (fst (lender BB l ax))) by auto.
+            rewrite (new_var_patch _ _ _ _ _ En). auto. }
+          split; [eapply Sep_new_var_ptr; [|exact En]; apply Sep_add_x; eauto|].
+          split; [exact BP1|split; [rewrite N2, app_length, Hv; lia|]].
+          split; [congruence|split; [rewrite N2, app_length, Hv, Ead, Hv; cbn; lia|]].
+          right. exists b'. split; [auto|split; [auto|split; [auto|]]].
+          destruct BP2 as [BP2|[BP2 BP3]]; [left; exact BP2|]. right. exists x. cbn [b_al b']. rewrite BP2. auto.
+        * (* copied or claimed, in both modes *)
+          assert (Hl : live st1 l) by (eapply rv_read_live; eauto).
+          pose proof (claim_or_copy_patch BB st1 l tmp B1 Hl) as Hcc.
+          destruct (claim_or_copy l tmp st1) as [[l' st2]|er] eqn:E2.
+          2:{ left. exists er. intros. cbn [bind_params]. rewrite Ep, Hev, E1. cbn [bind andb]. rewrite Ec, Hcc, E2. auto. }
+          cbn [lift1] in Hcc.
+          destruct (claim_or_copy_spec _ _ _ _ _ _ S1 R1 E2) as (C1 & C2 & C3 & C4 & C5 & C6).
+          pose proof (Binv_heap_same _ _ _ _ S1 B1 C2 C4) as B2.
+          destruct (new_var (VPtr l') st2) as [ad st3] eqn:En.
+          pose proof (new_var_spec _ _ _ _ En) as (Ead & N2 & N3 & N4 & N5).
+          right. exists ad, st3, [].
+          split; [intros; cbn [bind_params]; rewrite Ep, Hev, E1; cbn [bind andb]; rewrite Ec, Hcc, E2; cbn [bind]; rewrite En, (new_var_patch _ _ _ _ _ En); auto|].
+          split; [eapply Sep_new_var_ptr; eauto|split; [eapply Binv_new_var; eauto|split; [rewrite N2, app_length, C2, Ev; lia|]]].
+          split; [congruence|split; [rewrite N2, app_length, C2, Ev, Ead, C2, Ev; cbn; lia|auto]].
+    - left. exists EStuck. intros. cbn. rewrite Ep. auto.
+  Qed.
+
+  Definition bn_ok (k i : nat) (ps : list param) (args : list arg) (e ce' : env) (BB Bn : list borrow) (len0 : nat) : Prop :=
+    forall b, In b Bn ->
+      len0 <= b_pa b /\
+      (exists j p, nth_error ps j = Some p /\ pref p = false /\ is_const mt k (i + j) = true /\
+                   lookup ce' (pname p) = Some (b_pa b)) /\
+      (In (b_al b) (map b_al BB) \/
+       exists j x, nth_error args j = Some (AVal (EVar x)) /\ is_const mt k (i + j) = true /\
+                   lookup e x = Some (b_al b) /\ ~ In (b_al b) (map b_pa BB)).
+
+  Lemma bind_params_sim : forall k ps i args e ce X BB sc,
+    Sep X sc -> Binv BB sc -> NoDup (map pname ps) ->
+    match bind_params false mt k i ps args e ce sc with
+    | Er er => bind_params true mt k i ps args e ce (patch BB sc) = Er er
+    | Ok (ce', sc') =>
+        exists Bn,
+          bind_params true mt k i ps args e ce (patch BB sc) = Ok (ce', patch (Bn ++ BB) sc') /\
+          Binv (Bn ++ BB) sc' /\ bn_ok k i ps args e ce' BB Bn (length (vars sc)) /\
+          length (vars sc) <= length (vars sc') /\
+          (forall y, ~ In y (map pname ps) -> lookup ce' y = lookup ce y) /\
+          (forall j p, nth_error ps j = Some p -> exists a, lookup ce' (pname p) = Some a /\
+              (if pref p then exists x, nth_error args j = Some (ARef x) /\ lookup e x = Some a
+               else length (vars sc) <= a /\ a < length (vars sc'))) /\
+          (forall j j' p p' a, nth_error ps j = Some p -> nth_error ps j' = Some p' ->
+              pref p = false -> pref p' = false ->
+              lookup ce' (pname p) = Some a -> lookup ce' (pname p') = Some a -> j = j')
+    end.
+  Proof.
+    intros k ps. induction ps as [|p ps IH]; intros i args e ce X BB sc HS HB Hnd.
+    - destruct args as [|a args]; cbn; [|reflexivity].
+      exists []. split; [reflexivity|split; [exact HB|split; [intros b []|split; [lia|split; [auto|split]]]]].
+      + intros j p Hj. destruct j; discriminate Hj.
+      + intros j j' p p' a Hj. destruct j; discriminate Hj.
+    - destruct args as [|a args]; [cbn; reflexivity|]. inv Hnd.
+      destruct (bind_head k p i a e ce X BB sc HS HB) as [(er & Her)|(ad & st3 & Bhd & Heq & S3 & B3 & L3 & Hp)].
+      { destruct (Her ps args) as [-> ->]. reflexivity. }
+      destruct (Heq ps args) as [-> ->].
+      specialize (IH (S i) args e ((pname p, ad) :: ce) X (Bhd ++ BB) st3 S3 B3 H2).
+      destruct (bind_params false mt k (S i) ps args e ((pname p, ad) :: ce) st3) as [[ce' sc']|er]; [|exact IH].
+      destruct IH as (Bn & I1 & I2 & I3 & I4 & I5 & I6 & I7).
+      assert (Lp : lookup ce' (pname p) = Some ad).
+      { rewrite I5 by auto. cbn. rewrite Nat.eqb_refl. auto. }
+      exists (Bn ++ Bhd). rewrite <- app_assoc.
+      split; [exact I1|split; [exact I2|split; [|split; [lia|split; [|split]]]]].
+      + (* bn_ok *)
+        intros b Hb. apply in_app_or in Hb. destruct Hb as [Hb|Hb].
+        * destruct (I3 b Hb) as (K1 & (j & q & Q1 & Q2 & Q3 & Q4) & K3).
+          split; [lia|split].
+          -- exists (S j), q. rewrite Nat.add_succ_r. auto.
+          -- destruct K3 as [K3|(j' & x & J1 & J2 & J3 & J4)].
+             ++ rewrite map_app in K3. apply in_app_or in K3. destruct K3 as [K3|K3]; [|auto].
+                (* its lender is the lender of the head borrow *)
+                destruct (pref p); [destruct Hp as (_ & _ & ->); destruct K3|].
+                destruct Hp as (_ & _ & [->|(b' & -> & P1 & P2 & P3)]); [destruct K3|].
+                cbn in K3. destruct K3 as [<-|[]].
+                destruct P3 as [P3|(x & -> & P3 & P4)]; [auto|]. right. exists 0, x. rewrite Nat.add_0_r. auto.
+             ++ right. exists (S j'), x. rewrite Nat.add_succ_r. split; [auto|split; [auto|split; [auto|]]].
+                intros Hi. apply J4. rewrite map_app. apply in_or_app. auto.
+        * destruct (pref p) eqn:Ep; [destruct Hp as (_ & _ & ->); destruct Hb|].
+          destruct Hp as (Had & Hlen & [->|(b' & -> & P1 & P2 & P3)]); [destruct Hb|].
+          destruct Hb as [<-|[]]. split; [lia|split].
+          -- exists 0, p. rewrite Nat.add_0_r. rewrite P1. auto.
+          -- destruct P3 as [P3|(x & -> & P3 & P4)]; [auto|]. right. exists 0, x. rewrite Nat.add_0_r. auto.
+      + intros y Hy. cbn in Hy. rewrite I5 by tauto. cbn. destruct (Nat.eqb_spec (pname p) y); [exfalso; apply Hy; auto|auto].
+      + intros [|j] q Hq; cbn in Hq.
+        * inv Hq. exists ad. split; [auto|]. destruct (pref q).
+          -- destruct Hp as ((x & -> & Lx) & _). exists x. auto.
+          -- destruct Hp as (-> & Hlen & _). split; lia.
+        * destruct (I6 j q Hq) as (a0 & A1 & A2). exists a0. split; [auto|].
+          destruct (pref q); [exact A2|]. destruct A2. split; lia.
+      + intros [|j] [|j'] q q' a0 Hq Hq' Fq Fq' A A'; cbn in Hq, Hq'; auto.
+        * inv Hq. rewrite Lp in A. inv A. destruct (I6 j' q' Hq') as (a1 & A1 & A2). rewrite Fq' in A2.
+          rewrite Fq in Hp. destruct Hp as (-> & Hlen & _). rewrite A' in A1. inv A1. lia.
+        * inv Hq'. rewrite Lp in A'. inv A'. destruct (I6 j q Hq) as (a1 & A1 & A2). rewrite Fq in A2.
+          rewrite Fq' in Hp. destruct Hp as (-> & Hlen & _). rewrite A in A1. inv A1. lia.
+        * f_equal. eapply I7; eauto.
+  Qed.
+
+  (* ---------------------------------------------------------------------------------------------- *)
+  (* leaving the callee: the copies of the elided parameters are freed in copy mode, the handles     *)
+  (* dropped in elide mode                                                                         *)
+  (* ---------------------------------------------------------------------------------------------- *)
+  Lemma filter_all : forall A (f : A -> bool) l, (forall x, In x l -> f x = true) -> filter f l = l.
+  Proof.
+    induction l as [|x l IH]; cbn; intros H; auto. rewrite (H x) by auto. f_equal. apply IH. auto.
+  Qed.
+
+  Lemma Binv_filter : forall f B sc, Binv B sc -> Binv (filter f B) sc.
+  Proof.
+    intros f B sc [Hnd H]. split.
+    - clear H. induction B as [|b B IH]; cbn; [constructor|]. inv Hnd. destruct (f b); cbn; auto.
+      constructor; auto. intros Hi. apply H1. apply in_map_iff in Hi. destruct Hi as (b' & E & Hin).
+      apply filter_In in Hin. rewrite <- E. apply in_map. tauto.
+    - intros b Hin. apply filter_In in Hin. destruct Hin as [Hin _].
+      destruct (H b Hin) as (P1 & P2 & P3 & N & M). split; [auto|split; [auto|split; [auto|split]]].
+      + intros Hi. apply N. apply in_map_iff in Hi. destruct Hi as (b' & E & Hin'). apply filter_In in Hin'.
+        rewrite <- E. apply in_map. tauto.
+      + intros Hi. apply M. apply in_map_iff in Hi. destruct Hi as (b' & E & Hin'). apply filter_In in Hin'.
+        rewrite <- E. apply in_map. tauto.
+  Qed.
+
+  Lemma patchh_drop : forall B h b,
+    NoDup (map b_lc B) -> In b B ->
+    upd (patchh B h) (b_lc b) Freed = patchh (filter (fun b' => negb (Nat.eqb (b_lc b') (b_lc b))) B) (upd h (b_lc b) Freed).
+  Proof.
+    induction B as [|b0 B IH]; cbn; intros h b Hnd Hin; [contradiction|]. inv Hnd.
+    assert (U2 : forall (g : list cell) n (x y : cell), upd (upd g n x) n y = upd g n y).
+    { induction g as [|z g IHg]; intros [|n] x y; cbn; auto. f_equal. auto. }
+    assert (Uc : forall (g : list cell) n m (x y : cell), n <> m -> upd (upd g n x) m y = upd (upd g m y) n x).
+    { induction g as [|z g IHg]; intros [|n] [|m] x y Hne; cbn; auto; try congruence. f_equal. apply IHg. congruence. }
+    destruct Hin as [->|Hin].
+    - rewrite Nat.eqb_refl. cbn. rewrite U2.
+      rewrite filter_all.
+      + rewrite patchh_upd by auto. reflexivity.
+      + intros b' Hb'. apply negb_true_iff. apply Nat.eqb_neq. intros E. apply H1. rewrite <- E. apply in_map. auto.
+    - destruct (Nat.eqb_spec (b_lc b0) (b_lc b)) as [E|N].
+      + exfalso. apply H1. rewrite E. apply in_map. auto.
+      + cbn. rewrite Uc by auto. rewrite IH by auto. reflexivity.
+  Qed.
+
+  Lemma filter_filter_lt : forall (B : list borrow) a,
+    filter (fun b => Nat.ltb (b_pa b) (S a)) (filter (fun b => negb (Nat.eqb (b_pa b) a)) B) =
+    filter (fun b => Nat.ltb (b_pa b) a) B.
+  Proof.
+    induction B as [|b B IH]; intros a; cbn [filter]; auto.
+    destruct (Nat.eqb_spec (b_pa b) a) as [E|N]; cbn [negb filter].
+    - rewrite IH. destruct (Nat.ltb_spec (b_pa b) a); [lia|auto].
+    - rewrite IH. destruct (Nat.ltb_spec (b_pa b) (S a)); destruct (Nat.ltb_spec (b_pa b) a); auto; lia.
+  Qed.
+
+  Lemma exit_from_sim : forall n a X BBc sc a0,
+    Sep X sc -> Binv BBc sc -> a + n = length (vars sc) -> a0 <= a -> (forall b, In b BBc -> b_al b < a0) ->
+    exit_from n a (patch BBc sc) = lift0 (filter (fun b => Nat.ltb (b_pa b) a) BBc) (exit_from n a sc).
+  Proof.
+    induction n as [|n IH]; intros a X BBc sc a0 HS HB Hlen Ha0 Hal; cbn [exit_from].
+    - cbn [lift0]. rewrite filter_all; auto. intros b Hb. destruct (Binv_lt _ _ _ HB Hb). apply Nat.ltb_lt. lia.
+    - rewrite get_slot_patch. destruct (get_slot a sc) as [s|er] eqn:Eg; [|reflexivity]. cbn [bind]. apply get_slot_ok in Eg.
+      set (BB1 := filter (fun b => negb (Nat.eqb (b_pa b) a)) BBc).
+      assert (Hstep : forall sc1, Sep X (set_slot a VDead sc1) -> Binv BB1 (set_slot a VDead sc1) ->
+                 length (vars sc1) = length (vars sc) ->
+                 exit_from n (S a) (patch BB1 (set_slot a VDead sc1)) =
+                 lift0 (filter (fun b => Nat.ltb (b_pa b) a) BBc) (exit_from n (S a) (set_slot a VDead sc1))).
+      { intros sc1 S1 B1 L1. rewrite (IH (S a) X BB1 (set_slot a VDead sc1) a0); auto.
+        - unfold BB1. rewrite filter_filter_lt. reflexivity.
+        - cbn. rewrite upd_length. lia.
+        - intros b Hb. apply Hal. unfold BB1 in Hb. apply filter_In in Hb. tauto. }
+      assert (Hnot : forall b, In b BB1 -> b_pa b <> a /\ b_al b <> a).
+      { intros b Hb. unfold BB1 in Hb. apply filter_In in Hb. destruct Hb as [Hb Hf].
+        apply negb_true_iff in Hf. apply Nat.eqb_neq in Hf. specialize (Hal b Hb). split; [auto|lia]. }
+      destruct s as [z|l|].
+      + (* a number: nothing to free *)
+        cbn [bind]. rewrite set_slot_patch.
+        assert (E1 : BB1 = BBc).
+        { unfold BB1. apply filter_all. intros b Hb. apply negb_true_iff. apply Nat.eqb_neq. intros E.
+          destruct HB as [_ H]. destruct (H b Hb) as (P1 & _). unfold ptr_at in P1. rewrite E, Eg in P1. discriminate P1. }
+        rewrite <- E1 at 1. apply Hstep; auto.
+        * eapply Sep_set_nonptr; eauto; congruence.
+        * rewrite E1. eapply Binv_keeps; eauto. intros b Hb. rewrite <- E1 in Hb. destruct (Hnot b Hb).
+          split; apply set_slot_keeps; auto.
+      + assert (Hp : ptr_at sc a l) by exact Eg.
+        assert (Hl : live sc l) by (eapply (sep_live _ _ HS); eauto).
+        rewrite (release_live l sc Hl).
+        destruct (free l sc) as [sc1|er] eqn:Ef.
+        2:{ exfalso. destruct (free_live _ _ Hl) as [s1 Hs1]. congruence. }
+        pose proof (free_ok _ _ _ Ef Hl) as (F1 & F2 & F3 & F4 & F5).
+        assert (S1 : Sep X (set_slot a VDead sc1)) by (eapply Sep_release; eauto; congruence).
+        assert (B1 : Binv BB1 (set_slot a VDead sc1)).
+        { eapply Binv_keeps; [apply Binv_filter; exact HB|]. intros b Hb. destruct (Hnot b Hb).
+          split; eapply release_keeps; eauto. }
+        assert (Erel : release l (patch BBc sc) = Ok (patch BB1 sc1)).
+        { destruct (in_dec Nat.eq_dec a (map b_pa BBc)) as [Hi|Hn].
+          - apply in_map_iff in Hi. destruct Hi as (b & E & Hin).
+            destruct HB as [Hnd H]. destruct (H b Hin) as (P1 & _). rewrite E in P1.
+            assert (El : b_lc b = l) by (unfold ptr_at in *; congruence). subst l.
+            unfold release. cbn [heap patch set_heap]. rewrite patchh_in; auto.
+            f_equal. unfold patch, set_heap. cbn. rewrite F2, F3, F4, F5. f_equal.
+            rewrite patchh_drop by auto. f_equal. unfold BB1. apply filter_ext_in. intros b' Hb'.
+            f_equal. destruct (H b' Hb') as (P1' & _).
+            destruct (Nat.eqb_spec (b_pa b') a) as [E1|N1]; destruct (Nat.eqb_spec (b_lc b') (b_lc b)) as [E2|N2]; auto.
+            + exfalso. apply N2. rewrite E1 in P1'. unfold ptr_at in *. congruence.
+            + exfalso. apply N1. rewrite E2 in P1'. eapply (sep_inj _ _ HS); eauto.
+          - assert (Hsafe : safe_addr BBc a).
+            { split; auto. intros Hi. apply in_map_iff in Hi. destruct Hi as (b & E & Hin). specialize (Hal b Hin). lia. }
+            destruct (safe_loc _ _ _ _ _ HS HB Hsafe Hp) as [N1 N2].
+            assert (E1 : BB1 = BBc).
+            { unfold BB1. apply filter_all. intros b Hb. apply negb_true_iff. apply Nat.eqb_neq. intros E.
+              apply Hn. rewrite <- E. apply in_map. auto. }
+            rewrite E1. unfold release. cbn [heap patch set_heap]. rewrite patchh_out by auto.
+            destruct Hl as [c Hc]. rewrite Hc. fold (patch BBc sc). rewrite free_patch by (auto; exists c; auto).
+            rewrite Ef. reflexivity. }
+        rewrite Erel. cbn [bind]. rewrite set_slot_patch. apply Hstep; auto. congruence.
+      + cbn [bind]. rewrite set_slot_patch.
+        assert (E1 : BB1 = BBc).
+        { unfold BB1. apply filter_all. intros b Hb. apply negb_true_iff. apply Nat.eqb_neq. intros E.
+          destruct HB as [_ H]. destruct (H b Hb) as (P1 & _). unfold ptr_at in P1. rewrite E, Eg in P1. discriminate P1. }
+        rewrite <- E1 at 1. apply Hstep; auto.
+        * eapply Sep_set_nonptr; eauto; congruence.
+        * rewrite E1. eapply Binv_keeps; eauto. intros b Hb. rewrite <- E1 in Hb. destruct (Hnot b Hb).
+          split; apply set_slot_keeps; auto.
+  Qed.
+
+  (* ---------------------------------------------------------------------------------------------- *)
+  (* the callee's activation invariant follows from the caller's and the static conditions          *)
+  (* ---------------------------------------------------------------------------------------------- *)
+  Notation args_ok := (args_ok mt funs gnames gw).
+  Notation elide_arg_safe := (elide_arg_safe mt funs gnames gw).
+
+  Lemma args_ok_nth : forall c k all args i j a, args_ok c k all i args = true -> nth_error args j = Some a ->
+    match a with
+    | ARef y => is_const mt k (i + j) || may_write c y
+    | AVal (EVar x) => negb (is_const mt k (i + j)) || elide_arg_safe c k all x
+    | AVal _ => true
+    end = true.
+  Proof.
+    intros c k all args. induction args as [|a0 args IH]; intros i j a H Hj; [destruct j; discriminate Hj|].
+    cbn in H. apply andb_true_iff in H. destruct H as [H1 H2]. destruct j as [|j]; cbn in Hj.
+    - inv Hj. rewrite Nat.add_0_r. exact H1.
+    - rewrite Nat.add_succ_r. apply (IH (S i) j a H2 Hj).
+  Qed.
+
+  Lemma ref_args_nth : forall args i j y, nth_error args j = Some (ARef y) -> In (i + j, y) (ref_args i args).
+  Proof.
+    induction args as [|a0 args IH]; intros i j y Hj; [destruct j; discriminate Hj|].
+    destruct j as [|j]; cbn in Hj.
+    - inv Hj. cbn. rewrite Nat.add_0_r. auto.
+    - rewrite Nat.add_succ_r. destruct a0; cbn; [|right]; apply (IH (S i) j y Hj).
+  Qed.
+
+  Lemma callee_Ainv : forall c base B e sc k args ce' sc' Bn,
+    Ainv c base B e sc -> Binv B sc -> k < length funs ->
+    args_ok c k args 0 args = true -> gw_sub gw c k = true ->
+    NoDup (map pname (fparams (fn funs k))) ->
+    bn_ok k 0 (fparams (fn funs k)) args e ce' B Bn (length (vars sc)) ->
+    length (vars sc) <= length (vars sc') ->
+    (forall y, ~ In y (map pname (fparams (fn funs k))) -> lookup ce' y = lookup genv y) ->
+    (forall j p, nth_error (fparams (fn funs k)) j = Some p -> exists a, lookup ce' (pname p) = Some a /\
+        (if pref p then exists x, nth_error args j = Some (ARef x) /\ lookup e x = Some a
+         else length (vars sc) <= a /\ a < length (vars sc'))) ->
+    (forall j j' p p' a, nth_error (fparams (fn funs k)) j = Some p -> nth_error (fparams (fn funs k)) j' = Some p' ->
+        pref p = false -> pref p' = false ->
+        lookup ce' (pname p) = Some a -> lookup ce' (pname p') = Some a -> j = j') ->
+    Ainv (Some k) (length (vars sc)) (Bn ++ B) ce' sc'.
+  Proof.
+    intros c base B e sc k args ce' sc' Bn [[E1 E2 E3 [E4 E5]] A2 A3] HB Hk Hargs Hgw Hnd Hbn Hlen Hout Hpar Hinj.
+    set (ps := fparams (fn funs k)) in *.
+    (* what a name of the callee resolves to *)
+    assert (Hres : forall x a, lookup ce' x = Some a ->
+              (exists j p, nth_error ps j = Some p /\ pname p = x /\ pindex ps x 0 = Some (j, pref p) /\
+                   (if pref p then exists y, nth_error args j = Some (ARef y) /\ lookup e y = Some a
+                    else length (vars sc) <= a /\ a < length (vars sc'))) \/
+              (pindex ps x 0 = None /\ lookup genv x = Some a)).
+    { intros x a Hx. destruct (pindex ps x 0) as [[j r]|] eqn:Ep.
+      - left. destruct (pindex_spec _ _ _ _ Ep) as (j0 & p & Hp & Hn & Er & _). cbn in Er. inv Er.
+        exists j0, p. split; [auto|split; [auto|split; [auto|]]].
+        destruct (Hpar j0 p Hp) as (a' & L & F). rewrite L in Hx. inv Hx. exact F.
+      - right. split; auto. rewrite <- Hout; auto. eapply pindex_none; eauto. }
+    assert (Hgl : forall g a, lookup genv g = Some a -> a < length (vars sc)).
+    { intros g a Hg. destruct (genv_names _ _ Hg). lia. }
+    constructor; [constructor|..].
+    - (* ei_lt *)
+      intros x a Hx. destruct (Hres x a Hx) as [(j & p & Hp & Hn & Hi & F)|(Hi & Hg)].
+      + destruct (pref p); [destruct F as (y & _ & Ly); apply E1 in Ly; lia|lia].
+      + apply Hgl in Hg. lia.
+    - (* ei_kind *)
+      intros x a Hx. unfold Opt2Safe.kind_of. fold ps.
+      destruct (Hres x a Hx) as [(j & p & Hp & Hn & Hi & F)|(Hi & Hg)]; rewrite Hi.
+      + destruct (pref p); [destruct F as (y & _ & Ly); apply E1 in Ly; lia|].
+        destruct (is_const mt k j); lia.
+      + destruct (genv_names _ _ Hg) as [Hm _]. rewrite Hm. exact Hg.
+    - (* ei_inj *)
+      intros x y a Hx Hy Hb.
+      destruct (Hres x a Hx) as [(j & p & Hp & Hn & Hi & F)|(Hi & Hg)]; [|apply Hgl in Hg; lia].
+      destruct (Hres y a Hy) as [(j' & p' & Hp' & Hn' & Hi' & F')|(Hi' & Hg')]; [|apply Hgl in Hg'; lia].
+      destruct (pref p) eqn:Ep; [destruct F as (z & _ & Lz); apply E1 in Lz; lia|].
+      destruct (pref p') eqn:Ep'; [destruct F' as (z & _ & Lz); apply E1 in Lz; lia|].
+      subst x y. assert (j = j') by (eapply Hinj; eauto). subst j'. congruence.
+    - split; lia.
+    - (* ai_safe *)
+      intros x a Hx Hw. unfold Opt2Safe.may_write in Hw. fold ps in Hw.
+      destruct (Hres x a Hx) as [(j & p & Hp & Hn & Hi & F)|(Hi & Hg)]; rewrite Hi in Hw.
+      + apply negb_true_iff in Hw.
+        destruct (pref p) eqn:Ep.
+        * (* a Referenz parameter the callee may write: the caller may write the argument *)
+          destruct F as (y & Hy & Ly).
+          pose proof (args_ok_nth _ _ _ _ _ _ _ Hargs Hy) as Ha. cbn in Ha. rewrite Hw in Ha. cbn in Ha.
+          destruct (A2 _ _ Ly Ha) as [N1 N2].
+          pose proof (E1 _ _ Ly) as Lt.
+          split; rewrite map_app; intros Hi'; apply in_app_or in Hi'; destruct Hi' as [Hi'|Hi']; auto.
+          -- apply in_map_iff in Hi'. destruct Hi' as (b & Eb & Hb). destruct (Hbn b Hb) as (K1 & _). lia.
+          -- apply in_map_iff in Hi'. destruct Hi' as (b & Eb & Hb). destruct (Hbn b Hb) as (_ & _ & K3).
+             destruct K3 as [K3|(jx & x0 & Jx & Cx & Lx & Nx)]; [apply N2; rewrite <- Eb; auto|].
+             (* the lender is the caller's variable x0, passed by value at a constant position *)
+             pose proof (args_ok_nth _ _ _ _ _ _ _ Hargs Jx) as Hs. cbn in Hs. cbn [Nat.add] in Cx. rewrite Cx in Hs. cbn in Hs.
+             pose proof (ref_args_nth args 0 j y Hy) as Hr. cbn in Hr.
+             unfold Opt2Safe.elide_arg_safe in Hs.
+             pose proof (E2 _ _ Lx) as Kx. pose proof (E2 _ _ Ly) as Ky. rewrite Eb in Lx.
+             destruct (Opt2Safe.kind_of mt funs gnames c x0) eqn:Kx0; try discriminate Hs.
+             ++ rewrite forallb_forall in Hs. specialize (Hs _ Hr). cbn in Hs. rewrite Hw in Hs. cbn in Hs.
+                apply negb_true_iff in Hs. apply Nat.eqb_neq in Hs. apply Hs. apply (E3 y x0 a Ly Lx). rewrite <- Eb. exact Kx.
+             ++ rewrite forallb_forall in Hs. specialize (Hs _ Hr). cbn in Hs. rewrite Hw in Hs. cbn in Hs.
+                apply negb_true_iff in Hs. apply Nat.eqb_neq in Hs. apply Hs. apply (E3 y x0 a Ly Lx). rewrite <- Eb. exact Kx.
+             ++ apply andb_true_iff in Hs. destruct Hs as [_ Hs].
+                rewrite forallb_forall in Hs. specialize (Hs _ Hr). cbn in Hs. rewrite Hw in Hs. cbn in Hs.
+                apply andb_true_iff in Hs. destruct Hs as [Hs1 Hs2]. apply negb_true_iff in Hs1. apply Nat.eqb_neq in Hs1.
+                destruct (genv_names _ _ Kx) as [_ Gx].
+                destruct (Opt2Safe.kind_of mt funs gnames c y) eqn:Ky0; try discriminate Hs2; try lia.
+                apply Hs1. rewrite Eb in Kx. eapply genv_inj; eauto.
+        * (* an own, non-constant value parameter *)
+          destruct F as [F1 F2].
+          split; rewrite map_app; intros Hi'; apply in_app_or in Hi'; destruct Hi' as [Hi'|Hi'].
+          -- apply in_map_iff in Hi'. destruct Hi' as (b & Eb & Hb). destruct (Hbn b Hb) as (_ & (jb & q & Q1 & Q2 & Q3 & Q4) & _).
+             rewrite Eb in Q4. rewrite <- Hn in Hx. assert (j = jb) by (eapply Hinj; eauto). subst jb. cbn in Q3. congruence.
+          -- apply in_map_iff in Hi'. destruct Hi' as (b & Eb & Hb). destruct (Binv_lt _ _ _ HB Hb). lia.
+          -- apply in_map_iff in Hi'. destruct Hi' as (b & Eb & Hb). destruct (Hbn b Hb) as (_ & _ & K3).
+             destruct K3 as [K3|(jx & x0 & Jx & Cx & Lx & Nx)].
+             ++ apply in_map_iff in K3. destruct K3 as (b0 & Eb0 & Hb0). destruct (Binv_lt _ _ _ HB Hb0). lia.
+             ++ apply E1 in Lx. lia.
+          -- apply in_map_iff in Hi'. destruct Hi' as (b & Eb & Hb). destruct (Binv_lt _ _ _ HB Hb). lia.
+      + (* a global the callee may write *)
+        destruct (genv_names _ _ Hg) as [Hm Gx]. rewrite Hm in Hw.
+        assert (Hc : gw_has c x).
+        { unfold gw_has. destruct c as [jc|]; auto. unfold gw_sub in Hgw. rewrite forallb_forall in Hgw.
+          apply Hgw. apply mem_true. auto. }
+        destruct (A3 _ _ Hc Hg) as [N1 N2].
+        split; rewrite map_app; intros Hi'; apply in_app_or in Hi'; destruct Hi' as [Hi'|Hi']; auto.
+        * apply in_map_iff in Hi'. destruct Hi' as (b & Eb & Hb). destruct (Hbn b Hb) as (K1 & _). lia.
+        * apply in_map_iff in Hi'. destruct Hi' as (b & Eb & Hb). destruct (Hbn b Hb) as (_ & _ & K3).
+          destruct K3 as [K3|(jx & x0 & Jx & Cx & Lx & Nx)]; [apply N2; rewrite <- Eb; auto|].
+          pose proof (args_ok_nth _ _ _ _ _ _ _ Hargs Jx) as Hs. cbn in Hs. cbn [Nat.add] in Cx. rewrite Cx in Hs. cbn in Hs.
+          unfold Opt2Safe.elide_arg_safe in Hs. pose proof (E2 _ _ Lx) as Kx. rewrite Eb in Lx, Kx.
+          destruct (Opt2Safe.kind_of mt funs gnames c x0) eqn:Kx0; try discriminate Hs; try lia.
+          apply andb_true_iff in Hs. destruct Hs as [Hs _]. apply negb_true_iff in Hs.
+          assert (x0 = x) by (eapply genv_inj; eauto). subst x0. rewrite Hw in Hs. discriminate Hs.
+    - (* ai_gw *)
+      intros g a Hgk Hg. cbn in Hgk.
+      destruct (genv_names _ _ Hg) as [Hm Gx].
+      assert (Hc : gw_has c g).
+      { unfold gw_has. destruct c as [jc|]; auto. unfold gw_sub in Hgw. rewrite forallb_forall in Hgw.
+        apply Hgw. apply mem_true. auto. }
+      destruct (A3 _ _ Hc Hg) as [N1 N2].
+      split; rewrite map_app; intros Hi'; apply in_app_or in Hi'; destruct Hi' as [Hi'|Hi']; auto.
+      + apply in_map_iff in Hi'. destruct Hi' as (b & Eb & Hb). destruct (Hbn b Hb) as (K1 & _). lia.
+      + apply in_map_iff in Hi'. destruct Hi' as (b & Eb & Hb). destruct (Hbn b Hb) as (_ & _ & K3).
+        destruct K3 as [K3|(jx & x0 & Jx & Cx & Lx & Nx)]; [apply N2; rewrite <- Eb; auto|].
+        pose proof (args_ok_nth _ _ _ _ _ _ _ Hargs Jx) as Hs. cbn in Hs. cbn [Nat.add] in Cx. rewrite Cx in Hs. cbn in Hs.
+        unfold Opt2Safe.elide_arg_safe in Hs. pose proof (E2 _ _ Lx) as Kx. rewrite Eb in Lx, Kx.
+        destruct (Opt2Safe.kind_of mt funs gnames c x0) eqn:Kx0; try discriminate Hs; try lia.
+        apply andb_true_iff in Hs. destruct Hs as [Hs _]. apply negb_true_iff in Hs.
+        assert (x0 = g) by (eapply genv_inj; eauto). subst x0. rewrite Hgk in Hs. discriminate Hs.
+  Qed.
+
+  (* ---------------------------------------------------------------------------------------------- *)
+  (* calls                                                                                         *)
+  (* ---------------------------------------------------------------------------------------------- *)
+  Definition ex_sim (exT exF : env -> list stmt -> state -> res state) : Prop :=
+    forall c base B e ss sc X,
+      Sep X sc -> tmps sc = [] -> Binv B sc -> Ainv c base B e sc -> env_ok genv e sc ->
+      all_stmts (stmt_ok c) ss = true ->
+      exT e ss (patch B sc) = lift0 B (exF e ss sc) /\
+      (forall sc', exF e ss sc = Ok sc' -> forall b, In b B -> keeps sc sc' (b_pa b) /\ keeps sc sc' (b_al b)).
+
+  Lemma ret_value_patch : forall X BB ce fr st2, Sep X st2 -> Binv BB st2 ->
+    ret_value ce fr (patch BB st2) = lift1 BB (ret_value ce fr st2).
+  Proof.
+    intros X BB ce fr st2 HS HB. unfold ret_value. destruct fr as [re|]; [|reflexivity].
+    rewrite (eval_patch X) by auto. destruct (eval ce re st2) as [[v st3]|er] eqn:E1; [|reflexivity]. cbn [lift1 bind].
+    destruct (eval_spec _ _ _ _ _ _ E1 HS) as (S1 & X1 & R1). pose proof (Binv_ext _ _ _ _ HS HB X1) as B1.
+    destruct v as [z|l t].
+    - rewrite (end_stmt_patch X) by auto. destruct (end_stmt st3) as [st4|er]; reflexivity.
+    - rewrite claim_or_copy_patch by (auto; eapply rv_read_live; eauto).
+      destruct (claim_or_copy l t st3) as [[l' st4]|er] eqn:E2; [|reflexivity]. cbn [lift1 bind].
+      destruct (claim_or_copy_spec _ _ _ _ _ _ S1 R1 E2) as (C1 & C2 & C3 & C4 & C5 & C6).
+      pose proof (Binv_heap_same _ _ _ _ S1 B1 C2 C4) as B2.
+      rewrite (end_stmt_patch (l' :: X)) by auto. destruct (end_stmt st4) as [st5|er]; reflexivity.
+  Qed.
+
+  Lemma filter_borrows : forall (Bn B : list borrow) n,
+    (forall b, In b Bn -> n <= b_pa b) -> (forall b, In b B -> b_pa b < n) ->
+    filter (fun b => Nat.ltb (b_pa b) n) (Bn ++ B) = B.
+  Proof.
+    intros Bn B n H1 H2. rewrite filter_app. rewrite (filter_all _ _ B).
+    - replace (filter (fun b => Nat.ltb (b_pa b) n) Bn) with (@nil borrow); auto.
+      clear H2. induction Bn as [|b Bn IH]; cbn [filter]; auto.
+      destruct (Nat.ltb_spec (b_pa b) n) as [L|L]; [specialize (H1 b (or_introl eq_refl)); lia|]. apply IH. intros; apply H1; cbn; auto.
+    - intros b Hb. apply Nat.ltb_lt. auto.
+  Qed.
+
+  Lemma do_call_sim : forall exT exF c base B e dst k args sc X,
+    ex_sim exT exF -> ex_ok genv exF ->
+    Sep X sc -> tmps sc = [] -> Binv B sc -> Ainv c base B e sc -> env_ok genv e sc ->
+    stmt_ok c (SCall dst k args) = true ->
+    do_call true mt funs genv exT e dst k args (patch B sc) = lift0 B (do_call false mt funs genv exF e dst k args sc) /\
+    (forall sc', do_call false mt funs genv exF e dst k args sc = Ok sc' ->
+       forall b, In b B -> keeps sc sc' (b_pa b) /\ keeps sc sc' (b_al b)).
+  Proof.
+    intros exT exF c base B e dst k args sc X Hsim Hok HS Ht HB HA He Hst.
+    cbn [Opt2Safe.stmt_ok] in Hst. apply andb_true_iff in Hst. destruct Hst as [Hst Hargs].
+    apply andb_true_iff in Hst. destruct Hst as [Hst Hgw]. apply andb_true_iff in Hst. destruct Hst as [Hdst Hk].
+    apply Nat.ltb_lt in Hk.
+    unfold do_call. cbn [vars patch set_heap].
+    destruct (nth_error funs k) as [fd|] eqn:Efd; [|split; [reflexivity|intros sc' H; discriminate H]].
+    assert (Efn : fn funs k = fd) by (unfold fn; apply nth_error_nth; auto).
+    pose proof (funs_ok k Hk) as Hfk. unfold fun_ok in Hfk. apply andb_true_iff in Hfk. destruct Hfk as [Hnd Hbody].
+    apply nodupb_NoDup in Hnd. rewrite Efn in Hnd, Hbody.
+    pose proof (bind_params_sim k (fparams fd) 0 args e genv X B sc HS HB Hnd) as Hb.
+    destruct (bind_params false mt k 0 (fparams fd) args e genv sc) as [[ce st1]|er] eqn:Ebind.
+    2:{ rewrite Hb. split; [reflexivity|intros sc' H; discriminate H]. }
+    destruct Hb as (Bn & Hbe & HBt & Hbn & Hlen & Hout & Hpar & Hinj). rewrite Hbe. cbn [bind lift0].
+    destruct (bind_params_copy_spec _ _ _ _ _ _ _ _ _ _ _ Ebind HS) as (B1 & _ & B3 & B4 & B5 & B6 & B7).
+    set (BBt := Bn ++ B) in *. set (saved := tmps st1).
+    assert (Esaved : tmps (patch BBt st1) = saved) by reflexivity. rewrite Esaved. rewrite set_tmps_patch.
+    (* the callee's body *)
+    assert (S1' : Sep (saved ++ X) (set_tmps st1 [])) by (apply (Sep_perm X (saved ++ X) st1 (set_tmps st1 [])); auto).
+    assert (B1' : Binv BBt (set_tmps st1 [])) by (eapply Binv_keeps; [exact HBt|]; intros; split; (split; [reflexivity|intros; reflexivity])).
+    assert (A1' : Ainv (Some k) (length (vars sc)) BBt ce (set_tmps st1 [])).
+    { rewrite <- Efn in Hbn, Hout, Hpar, Hinj, Hnd.
+      eapply Ainv_mono; [eapply (callee_Ainv c base B e sc k args ce st1 Bn); eauto|cbn; lia]. }
+    assert (He1 : env_ok genv ce (set_tmps st1 [])).
+    { destruct He as [He1 He2]. split; [|exact B7]. cbn. intros ad Ha. apply B6 in Ha.
+      destruct Ha as [Ha|[Ha|Ha]]; [apply He2 in Ha; apply He1 in Ha; lia| |lia].
+      apply ref_addrs_in in Ha. apply He1 in Ha. lia. }
+    destruct (Hsim (Some k) (length (vars sc)) BBt ce (fbody fd) (set_tmps st1 []) (saved ++ X) S1' eq_refl B1' A1' He1 Hbody) as [Hbd Hbk].
+    rewrite Hbd.
+    destruct (exF ce (fbody fd) (set_tmps st1 [])) as [st2|er] eqn:Ebody; [|split; [reflexivity|intros sc' H; discriminate H]].
+    cbn [lift0 bind].
+    pose proof (Hok _ _ _ _ _ Ebody S1' eq_refl He1) as (C1 & C2 & C3 & C4). cbn in C3.
+    assert (B2 : Binv BBt st2) by (eapply Binv_keeps; [exact B1'|]; intros b Hb; apply (Hbk _ eq_refl b Hb)).
+    (* the return value *)
+    rewrite (ret_value_patch (saved ++ X)) by auto.
+    destruct (ret_value ce (fret fd) st2) as [[result st6]|er] eqn:Eret; [|split; [reflexivity|intros sc' H; discriminate H]].
+    cbn [lift1 bind].
+    destruct (ret_value_spec _ _ _ _ _ _ Eret C1 C2) as (Y & R1 & R2 & R3 & R4 & R5).
+    assert (B6' : Binv BBt st6).
+    { eapply Binv_keeps; eauto. intros b Hb. destruct (Binv_lt _ _ _ B2 Hb). split; apply R4; auto. }
+    (* leaving the frame *)
+    unfold exit_frame. cbn [vars patch set_heap].
+    assert (Hbase : length (vars sc) + (length (vars st6) - length (vars sc)) = length (vars st6)) by lia.
+    assert (Hal : forall b, In b BBt -> b_al b < length (vars sc)).
+    { intros b Hb. unfold BBt in Hb. apply in_app_or in Hb. destruct Hb as [Hb|Hb].
+      - destruct (Hbn b Hb) as (_ & _ & [K|(j & x & _ & _ & Lx & _)]).
+        + apply in_map_iff in K. destruct K as (b0 & E0 & H0). destruct (Binv_lt _ _ _ HB H0). lia.
+        + apply (ei_lt _ _ _ _ (ai_env _ _ _ _ _ HA)) in Lx. auto.
+      - destruct (Binv_lt _ _ _ HB Hb). auto. }
+    rewrite (exit_from_sim _ _ (Y ++ saved ++ X) BBt st6 (length (vars sc))) by auto.
+    assert (Efil : filter (fun b => Nat.ltb (b_pa b) (length (vars sc))) BBt = B).
+    { apply filter_borrows.
+      - intros b Hb. destruct (Hbn b Hb) as (K & _). exact K.
+      - intros b Hb. destruct (Binv_lt _ _ _ HB Hb). auto. }
+    rewrite Efil.
+    destruct (exit_from (length (vars st6) - length (vars sc)) (length (vars sc)) st6) as [st7|er] eqn:Eexit;
+      [|split; [reflexivity|intros sc' H; discriminate H]].
+    cbn [lift0 bind].
+    destruct (exit_from_copy_spec _ _ _ _ _ Eexit R1 Hbase) as (F1 & F2 & F3 & F4 & F5).
+    (* what the caller's borrows see up to here *)
+    assert (K7 : forall b, In b B -> keeps sc st7 (b_pa b) /\ keeps sc st7 (b_al b)).
+    { intros b Hb. destruct (Binv_lt _ _ _ HB Hb) as [L1 L2].
+      assert (HbT : In b BBt) by (unfold BBt; apply in_or_app; auto).
+      destruct (Hbk _ eq_refl b HbT) as [Q1 Q2].
+      split.
+      - eapply keeps_trans; [apply B5; auto|]. eapply keeps_trans with (s2 := set_tmps st1 []); [split; auto|].
+        eapply keeps_trans; [exact Q1|]. eapply keeps_trans; [apply R4; lia|apply F5; auto].
+      - eapply keeps_trans; [apply B5; auto|]. eapply keeps_trans with (s2 := set_tmps st1 []); [split; auto|].
+        eapply keeps_trans; [exact Q2|]. eapply keeps_trans; [apply R4; lia|apply F5; auto]. }
+    assert (B7' : Binv B st7) by (eapply Binv_keeps; [exact HB|exact K7]).
+    (* back in the caller *)
+    rewrite !call_finish_resume.
+    assert (F2' : tmps st7 = []) by congruence.
+    destruct (resume_spec X saved result Y st7 F1 F2' R5) as (S9 & V9 & H9 & O9 & Rv9).
+    assert (Eres : resume saved result (patch B st7) = patch B (resume saved result st7)).
+    { unfold resume. destruct result as [[z|l t]|]; reflexivity. }
+    rewrite Eres.
+    assert (B9 : Binv B (resume saved result st7)).
+    { eapply Binv_keeps; eauto. intros b Hb. split; (split; [rewrite V9; auto|intros; rewrite H9; auto]). }
+    assert (K9 : forall b, In b B -> keeps sc (resume saved result st7) (b_pa b) /\ keeps sc (resume saved result st7) (b_al b)).
+    { intros b Hb. destruct (K7 b Hb) as [Q1 Q2].
+      split; (eapply keeps_trans; [eassumption|]; split; [rewrite V9; auto|intros; rewrite H9; auto]). }
+    destruct dst as [d|].
+    - destruct result as [v|]; [|split; [reflexivity|intros sc' H; discriminate H]].
+      destruct (lookup e d) as [ad|] eqn:Ed; [|split; [reflexivity|intros sc' H; discriminate H]].
+      pose proof (ai_safe _ _ _ _ _ HA _ _ Ed Hdst) as Hsafe.
+      rewrite (store_value_patch X) by auto.
+      destruct (store_value ad v (resume saved (Some v) st7)) as [st10|er] eqn:Est; [|split; [reflexivity|intros sc' H; discriminate H]].
+      cbn [lift0 bind].
+      destruct (store_value_spec _ _ _ _ _ S9 (Rv9 v eq_refl) Est) as (V1 & V2 & V3 & V4 & V5).
+      assert (K10 : forall b, In b B -> keeps sc st10 (b_pa b) /\ keeps sc st10 (b_al b)).
+      { intros b Hb. destruct (K9 b Hb) as [Q1 Q2]. destruct Hsafe as [N1 N2].
+        split; (eapply keeps_trans; [eassumption|]); apply V5; intros E; [apply N1|apply N2]; rewrite <- E; apply in_map; auto. }
+      assert (B10 : Binv B st10) by (eapply Binv_keeps; [exact HB|exact K10]).
+      split; [apply (end_stmt_patch X); auto|].
+      intros sc' Hend b Hb. destruct (end_stmt_spec _ _ _ V1 Hend) as (T1 & T2 & T3 & T4 & T5).
+      destruct (K10 b Hb). split; eapply keeps_trans; eauto.
+    - split; [apply (end_stmt_patch X); auto|].
+      intros sc' Hend b Hb. destruct (end_stmt_spec _ _ _ S9 Hend) as (T1 & T2 & T3 & T4 & T5).
+      destruct (K9 b Hb). split; eapply keeps_trans; eauto.
+  Qed.
+
+  (* ---------------------------------------------------------------------------------------------- *)
+  (* loops and statement lists                                                                     *)
+  (* ---------------------------------------------------------------------------------------------- *)
+  Lemma env_ok_decl : forall e sc sc' x, env_ok genv e sc -> length (vars sc) < length (vars sc') ->
+    env_ok genv ((x, length (vars sc)) :: e) sc'.
+  Proof.
+    intros e sc sc' x [H1 H2] Hl. split.
+    - cbn. intros a [<-|Ha]; [lia|]. apply H1 in Ha. lia.
+    - intros a Ha. cbn. right. auto.
+  Qed.
+
+  Lemma for_loop_sim : forall exT exF c base B x body e cs sc X,
+    ex_sim exT exF -> ex_ok genv exF ->
+    Sep X sc -> tmps sc = [] -> Binv B sc -> Ainv c base B e sc -> env_ok genv e sc ->
+    fresh_name funs gnames c x = true -> all_stmts (stmt_ok c) body = true ->
+    for_loop exT x body e cs (patch B sc) = lift0 B (for_loop exF x body e cs sc) /\
+    (forall sc', for_loop exF x body e cs sc = Ok sc' ->
+       forall b, In b B -> keeps sc sc' (b_pa b) /\ keeps sc sc' (b_al b)).
+  Proof.
+    intros exT exF c base B x body e cs. induction cs as [|z cs IH]; intros sc X Hsim Hok HS Ht HB HA He Hf Hbody; cbn [for_loop].
+    - split; [reflexivity|]. intros sc' H b Hb. inv H. split; apply keeps_refl.
+    - destruct (new_var (VInt z) sc) as [a st1] eqn:En. rewrite (new_var_patch _ _ _ _ _ En).
+      pose proof (Sep_new_var_int _ _ _ _ _ HS En) as S1.
+      pose proof (new_var_spec _ _ _ _ En) as (-> & N2 & N3 & N4 & N5).
+      assert (L1 : length (vars sc) < length (vars st1)) by (rewrite N2, app_length; cbn; lia).
+      pose proof (Binv_new_var _ _ _ _ _ HB En) as B1.
+      pose proof (Ainv_decl _ _ _ _ _ st1 x HA HB Hf L1) as A1.
+      pose proof (env_ok_decl _ _ st1 x He L1) as He1.
+      destruct (Hsim c base B _ body st1 X S1 (eq_trans N4 Ht) B1 A1 He1 Hbody) as [Hbd Hbk].
+      rewrite Hbd. destruct (exF ((x, length (vars sc)) :: e) body st1) as [st2|er] eqn:Eb;
+        [|split; [reflexivity|intros sc' H; discriminate H]].
+      cbn [lift0 bind].
+      pose proof (Hok _ _ _ _ _ Eb S1 (eq_trans N4 Ht) He1) as (C1 & C2 & C3 & C4).
+      assert (B2 : Binv B st2) by (eapply Binv_keeps; [exact B1|]; intros b Hb; apply (Hbk _ eq_refl b Hb)).
+      assert (L2 : length (vars sc) <= length (vars st2)) by lia.
+      destruct (IH st2 X Hsim Hok C1 C2 B2 (Ainv_mono _ _ _ _ _ _ HA L2) (env_ok_mono _ _ _ _ He L2) Hf Hbody) as [I1 I2].
+      split; [exact I1|].
+      intros sc' H b Hb. destruct (Binv_lt _ _ _ HB Hb). destruct (Hbk _ eq_refl b Hb). destruct (I2 _ H b Hb).
+      split; (eapply keeps_trans; [eapply new_var_keeps; eauto|]; eapply keeps_trans; eauto).
+  Qed.
+
+  Lemma lift0_keeps_ok : forall B r sc', lift0 B r = Ok sc' -> exists s, r = Ok s.
+  Proof. intros B [s|er] sc' H; [eauto|discriminate H]. Qed.
+
+  Theorem exec_sim : forall fuel, ex_sim (exec true mt funs genv fuel) (exec false mt funs genv fuel).
+  Proof.
+    induction fuel as [|fuel IH]; intros c base B e ss sc X HS Ht HB HA He Hss; cbn [exec].
+    { split; [reflexivity|intros sc' H; discriminate H]. }
+    pose proof (exec_copy_ok mt funs genv fuel) as Hok.
+    destruct ss as [|s rest].
+    { split; [reflexivity|]. intros sc' H b Hb. inv H. split; apply keeps_refl. }
+    destruct (all_stmts_cons _ _ _ Hss) as [Hs Hrest]. pose proof (all_stmt_head _ _ Hs) as Hhd.
+    (* the common tail: continue with the rest of the list *)
+    assert (Tail : forall e1 sc1,
+               Sep X sc1 -> tmps sc1 = [] -> Ainv c base B e1 sc1 -> env_ok genv e1 sc1 ->
+               (forall b, In b B -> keeps sc sc1 (b_pa b) /\ keeps sc sc1 (b_al b)) ->
+               exec true mt funs genv fuel e1 rest (patch B sc1) = lift0 B (exec false mt funs genv fuel e1 rest sc1) /\
+               (forall sc', exec false mt funs genv fuel e1 rest sc1 = Ok sc' ->
+                  forall b, In b B -> keeps sc sc' (b_pa b) /\ keeps sc sc' (b_al b))).
+    { intros e1 sc1 S1 T1 A1 E1 K1.
+      assert (B1 : Binv B sc1) by (eapply Binv_keeps; [exact HB|exact K1]).
+      destruct (IH c base B e1 rest sc1 X S1 T1 B1 A1 E1 Hrest) as [I1 I2]. split; [exact I1|].
+      intros sc' H b Hb. destruct (K1 b Hb). destruct (I2 _ H b Hb). split; eapply keeps_trans; eauto. }
+    assert (Ksafe : forall x a sc1, lookup e x = Some a -> may_write c x = true ->
+               (forall b, b < length (vars sc) -> ~ (b = a) -> keeps sc sc1 b) ->
+               forall b, In b B -> keeps sc sc1 (b_pa b) /\ keeps sc sc1 (b_al b)).
+    { intros x a sc1 Lx Wx K b Hb. destruct (ai_safe _ _ _ _ _ HA _ _ Lx Wx) as [N1 N2].
+      destruct (Binv_lt _ _ _ HB Hb). split; apply K; auto; intros E; [apply N1|apply N2]; rewrite <- E; apply in_map; auto. }
+    assert (Kall : forall sc1, (forall b, b < length (vars sc) -> ~ False -> keeps sc sc1 b) ->
+               forall b, In b B -> keeps sc sc1 (b_pa b) /\ keeps sc sc1 (b_al b)).
+    { intros sc1 K b Hb. destruct (Binv_lt _ _ _ HB Hb). split; apply K; auto. }
+    destruct s as [x ex|x ex|x i v|ex|dst f args|cnd th el|x ex body]; cbn [Opt2Safe.stmt_ok] in Hhd.
+    - (* SDecl *)
+      rewrite (do_decl_patch X) by auto.
+      destruct (do_decl e x ex sc) as [[e' st1]|er] eqn:Ed; [|split; [reflexivity|intros sc' H; discriminate H]].
+      cbn [lift1 bind].
+      destruct (do_decl_spec _ _ _ _ _ _ _ Ed HS) as ((D1 & D2 & D3 & D4) & -> & D5 & D6).
+      apply Tail; auto.
+      + eapply Ainv_decl; eauto. lia.
+      + eapply env_ok_decl; eauto. lia.
+    - (* SAssign *)
+      assert (Hsafe : forall a, lookup e x = Some a -> safe_addr B a) by (intros a La; eapply (ai_safe _ _ _ _ _ HA); eauto).
+      rewrite (do_assign_patch X) by auto.
+      destruct (do_assign e x ex sc) as [st1|er] eqn:Ed; [|split; [reflexivity|intros sc' H; discriminate H]].
+      cbn [lift0 bind].
+      destruct (do_assign_spec _ _ _ _ _ _ Ed HS Ht) as (a & La & (D1 & D2 & D3 & D4) & D5).
+      apply Tail; auto.
+      + eapply Ainv_mono; eauto.
+      + eapply env_ok_mono; eauto.
+      + eapply Ksafe; eauto.
+    - (* SAssignIdx *)
+      assert (Hsafe : forall a, lookup e x = Some a -> safe_addr B a) by (intros a La; eapply (ai_safe _ _ _ _ _ HA); eauto).
+      rewrite (do_assign_idx_patch X) by auto.
+      destruct (do_assign_idx e x i v sc) as [st1|er] eqn:Ed; [|split; [reflexivity|intros sc' H; discriminate H]].
+      cbn [lift0 bind].
+      destruct (do_assign_idx_spec _ _ _ _ _ _ _ Ed HS) as (a & La & (D1 & D2 & D3 & D4) & D5).
+      apply Tail; auto.
+      + eapply Ainv_mono; eauto.
+      + eapply env_ok_mono; eauto.
+      + eapply Ksafe; eauto.
+    - (* SPrint *)
+      rewrite (do_print_patch X) by auto.
+      destruct (do_print e ex sc) as [st1|er] eqn:Ed; [|split; [reflexivity|intros sc' H; discriminate H]].
+      cbn [lift0 bind].
+      destruct (do_print_spec _ _ _ _ _ Ed HS) as ((D1 & D2 & D3 & D4) & D5).
+      apply Tail; auto.
+      + eapply Ainv_mono; eauto.
+      + eapply env_ok_mono; eauto.
+    - (* SCall *)
+      assert (Hsim : ex_sim (exec true mt funs genv fuel) (exec false mt funs genv fuel)) by exact IH.
+      destruct (do_call_sim _ _ c base B e dst f args sc X Hsim Hok HS Ht HB HA He Hhd) as [Hc1 Hc2].
+      rewrite Hc1.
+      destruct (do_call false mt funs genv (exec false mt funs genv fuel) e dst f args sc) as [st1|er] eqn:Ed;
+        [|split; [reflexivity|intros sc' H; discriminate H]].
+      cbn [lift0 bind].
+      destruct (do_call_copy_spec _ _ _ _ _ _ _ _ _ _ _ Hok Ed HS Ht He) as ((D1 & D2 & D3 & D4) & _).
+      apply Tail; auto.
+      + eapply Ainv_mono; eauto.
+      + eapply env_ok_mono; eauto.
+    - (* SIf *)
+      destruct (all_stmt_if _ _ _ _ Hs) as [Hth Hel].
+      rewrite (do_cond_patch X) by auto.
+      destruct (do_cond e cnd sc) as [[bv st1]|er] eqn:Ed; [|split; [reflexivity|intros sc' H; discriminate H]].
+      cbn [lift1 bind].
+      destruct (do_cond_spec _ _ _ _ _ _ Ed HS) as ((D1 & D2 & D3 & D4) & D5 & D6).
+      assert (K1 : forall b, In b B -> keeps sc st1 (b_pa b) /\ keeps sc st1 (b_al b)) by (apply Kall; auto).
+      assert (B1 : Binv B st1) by (eapply Binv_keeps; [exact HB|exact K1]).
+      assert (Hbr : all_stmts (stmt_ok c) (if bv then th else el) = true) by (destruct bv; auto).
+      destruct (IH c base B e (if bv then th else el) st1 X D1 D2 B1 (Ainv_mono _ _ _ _ _ _ HA D3) (env_ok_mono _ _ _ _ He D3) Hbr) as [I1 I2].
+      rewrite I1.
+      destruct (exec false mt funs genv fuel e (if bv then th else el) st1) as [st2|er] eqn:Eb;
+        [|split; [reflexivity|intros sc' H; discriminate H]].
+      cbn [lift0 bind].
+      pose proof (Hok _ _ _ _ _ Eb D1 D2 (env_ok_mono _ _ _ _ He D3)) as (C1 & C2 & C3 & C4).
+      assert (L2 : length (vars sc) <= length (vars st2)) by lia.
+      apply Tail; auto.
+      + eapply Ainv_mono; eauto.
+      + eapply env_ok_mono; eauto.
+      + intros b Hb. destruct (K1 b Hb). destruct (I2 _ eq_refl b Hb). split; eapply keeps_trans; eauto.
+    - (* SFor *)
+      pose proof (all_stmt_for _ _ _ _ Hs) as Hbody.
+      rewrite (for_init_patch X) by auto.
+      destruct (for_init e ex sc) as [[[lc cs] st1]|er] eqn:Ed; [|split; [reflexivity|intros sc' H; discriminate H]].
+      cbn [lift1 bind].
+      destruct (for_init_spec _ _ _ _ _ _ _ Ed HS) as ((D1 & D2 & D3 & D4) & D5 & D6).
+      assert (K1 : forall b, In b B -> keeps sc st1 (b_pa b) /\ keeps sc st1 (b_al b)) by (apply Kall; auto).
+      assert (B1 : Binv B st1) by (eapply Binv_keeps; [exact HB|exact K1]).
+      assert (Hsim : ex_sim (exec true mt funs genv fuel) (exec false mt funs genv fuel)) by exact IH.
+      destruct (for_loop_sim _ _ c base B x body e cs st1 (lc :: X) Hsim Hok D1 D2 B1 (Ainv_mono _ _ _ _ _ _ HA D3) (env_ok_mono _ _ _ _ He D3) Hhd Hbody) as [I1 I2].
+      rewrite I1.
+      destruct (for_loop (exec false mt funs genv fuel) x body e cs st1) as [st2|er] eqn:El;
+        [|split; [reflexivity|intros sc' H; discriminate H]].
+      cbn [lift0 bind].
+      pose proof (for_loop_spec _ _ _ _ _ _ _ _ _ Hok El D1 D2 (env_ok_mono _ _ _ _ He D3)) as (C1 & C2 & C3 & C4).
+      assert (K2 : forall b, In b B -> keeps sc st2 (b_pa b) /\ keeps sc st2 (b_al b)).
+      { intros b Hb. destruct (K1 b Hb). destruct (I2 _ eq_refl b Hb). split; eapply keeps_trans; eauto. }
+      assert (B2 : Binv B st2) by (eapply Binv_keeps; [exact HB|exact K2]).
+      assert (Hlc : live st2 lc) by (apply (sep_xlive _ _ C1); rewrite in_middle; auto).
+      assert (Nlc : ~ In lc (map b_lc B)).
+      { eapply (owner_loc (lc :: X)); eauto. rewrite in_middle. auto. }
+      rewrite free_patch by auto.
+      destruct (free lc st2) as [st3|er] eqn:Ef; [|split; [reflexivity|intros sc' H; discriminate H]].
+      cbn [lift0 bind].
+      pose proof (Sep_free_x _ _ _ _ C1 Ef) as S3.
+      pose proof (free_ok _ _ _ Ef Hlc) as (F1 & F2 & F3 & F4 & F5).
+      assert (L3 : length (vars sc) <= length (vars st3)) by (rewrite F3; lia).
+      apply Tail; auto.
+      + congruence.
+      + eapply Ainv_mono; eauto.
+      + eapply env_ok_mono; eauto.
+      + intros b Hb. destruct (K2 b Hb). split; (eapply keeps_trans; [eassumption|]; eapply free_x_keeps; eauto).
+  Qed.
 End Sim.
